@@ -134,6 +134,43 @@ def run(plan):
         if last.get("udpid") != udpid:
             res.fail("get_token asked for a different udpid", last.get("udpid"))
 
+    async def overlap_main(w):
+        """Two calls overlap on one cloud object; the second one is cancelled while it waits behind the first one's
+        unanswered request. The first call is healthy and must return its matching entry."""
+        CE = w.ns.cloud.CloudError
+        c = w.ns.cloud.NetHomePlusCloud(region, account=acct, password=pwd, get_async_client=cloud.client_factory())
+        o = await capture(w, c.login())
+        if o.kind != "ok":
+            res.fail(f"login failed against a conforming server: {o.exc_type}", repr(o.exc))
+            return
+        cloud.faults = [("slow", plan.get("slow", 1.0))]
+        other = plan.get("other_udpid", udpid)
+        cloud.tokens.setdefault(other, [{"udpId": other, "token": "ab" * 64, "key": "cd" * 32}])
+        ta = w.loop.create_task(capture(w, c.get_token(udpid)))
+        await asyncio.sleep(plan.get("lead", 0.1))
+        ob = await capture(w, c.get_token(other), cancel_after=plan.get("cancel", 0.3))
+        oa = await ta
+        w.fire("cloud_call_cancelled_while_waiting_behind_another")
+        if not check_requests():
+            return
+        match = [e for e in plan.get("tokenlist", []) if e.get("udpId") == udpid]
+        if oa.kind == "exc" and not isinstance(oa.exc, CE):
+            res.fail(f"get_token raised {oa.exc_type} (not CloudError)", f"the healthy call of two overlapping ones: {oa.exc!r}")
+            return
+        if match:
+            if oa.kind != "ok":
+                res.fail(f"get_token raised {oa.exc_type} although a matching entry exists", repr(oa.exc))
+                return
+            if tuple(oa.value) != (match[0]["token"], match[0]["key"]):
+                res.fail("get_token returned another entry's credentials", f"{oa.value!r}")
+                return
+        # afterwards the object still works
+        o = await capture(w, c.get_token(udpid))
+        if not check_requests():
+            return
+        if match and (o.kind != "ok" or tuple(o.value) != (match[0]["token"], match[0]["key"])):
+            res.fail("get_token after overlapping calls failed or returned another entry", repr(o))
+
     async def relogin_main(w):
         """login(), forced re-login(s) against a server that rotates the loginId, then get_token."""
         CE = w.ns.cloud.CloudError
@@ -253,7 +290,7 @@ def run(plan):
             w.fire("concurrent_auto_connect", ndev)
 
     try:
-        w.run({"e2e": e2e_main, "relogin": relogin_main}.get(mode, select_main))
+        w.run({"e2e": e2e_main, "relogin": relogin_main, "overlap": overlap_main}.get(mode, select_main))
     except (SimDeadlock, SimStepLimit) as e:
         res.fail(f"liveness: {type(e).__name__}", str(e))
     res.take(w)
@@ -373,4 +410,15 @@ def space(tier):
         p["steps"] = steps
         return p
     sp.add("relogin", 1000 if tier == "quick" else 60_000, relogin)
+
+    def overlap(j, rng):
+        p = gen_select(j, rng)
+        p["mode"] = "overlap"
+        p["slow"] = rng.choice([0.5, 1.0, 3.0])
+        p["lead"] = rng.choice([0.0, 0.01, 0.1])
+        p["cancel"] = rng.choice([0.0, 0.05, 0.2, 0.45])
+        if rng.random() < 0.5:
+            p["other_udpid"] = rand_udpid(rng)
+        return p
+    sp.add("overlapping_calls_one_cancelled", 600 if tier == "quick" else 40_000, overlap)
     return sp
